@@ -10,4 +10,8 @@ PROPS = {
  'C15': dict(module='ArcSwapModel.Props.C15', harness_modes=['kinds'], extra=['extra_kinds'],
              trusted=['std\'s Arc/Rc/Weak count behaviour and allocator addresses are parameters of the Kinds model, validated by running the real impls (not proved)'],
              assumptions=['std: into_raw/from_raw/ptr::read+forget touch no count; clone/drop add/remove exactly one; Weak::new() is the dangling sentinel']),
+ 'C19': dict(module='ArcSwapModel.Props.C19', modules=['ArcSwapModel.Props.C19', 'ArcSwapModel.Tie.AutoTraitsTable'],
+             harness_modes=['rlib'], extra=['extra_autotraits'],
+             trusted=['the auto-trait rules (AutoTraits.auto) are a model of rustc, validated against rustc for every table cell on every run', 'parametricity of auto traits in the pointee type'],
+             assumptions=['all other type parameters (closures, accesses) are instantiated with Send + Sync types']),
 }
